@@ -160,3 +160,23 @@ package source
 //@     invariant trackedG == trackedG
 //@   loop 4
 //@     invariant trackedG == trackedG
+
+// ---------------------------------------------------------------------------
+// C18: the incremental read of the main dataset starts at the stored main position, and the position handed on with the
+// batch (and stored once the sink accepted it) is exactly the one that read returned
+//@ assumed (source.DatasetContinuation).AsIncrToken
+//@   pure
+//@ unit (*MultiSource).incrementalRead
+//@   prop C18
+//@   ghost sinceG int = 0
+//@   ghost contG int = 0
+//@   requires multiSource != nil && dataset != nil && typeof(since) == typeid("*source.MultiDatasetContinuation") && cast(since, "*source.MultiDatasetContinuation") != nil
+//@   dyncall processEntities pure
+//@   at call AsIncrToken#1
+//@     ghost sinceG := $result
+//@   at call ProcessChanges#1 before
+//@     assert [C18:main-dataset-read-from-the-stored-position-with-the-configured-latest-only-mode] $arg1 == sinceG && $arg2 == batchSize && $arg3 == multiSource.LatestOnly && $arg0 == dataset
+//@   at call ProcessChanges#1
+//@     ghost contG := $result0
+//@   at call processEntities#1 before
+//@     assert [C18:position-handed-on-with-the-batch-is-the-one-the-read-returned] cast($arg1, "*source.MultiDatasetContinuation") == cast(since, "*source.MultiDatasetContinuation") && cast(since, "*source.MultiDatasetContinuation").MainToken == itoa(contG)
